@@ -408,3 +408,44 @@
         kani::cover!(r.is_err() && k == 1);
         std::mem::forget(r);
     }
+
+// @h id=H4.c prop=C04,C10,C16 tier=quick cap=600 mem=16 unwind=18 role=collision expect=finding bounds="two 16-byte contents sharing a fixed 8-byte prefix, 8-byte tails symbolic and distinct, real AHasher::default(); ids 0 and 7"
+    /// WITNESS OF KNOWN FINDING F5: tiles are deduplicated by a 64-bit content hash alone; the solver is asked for two distinct contents with equal hash, for which the second add silently replaces the first tile's bytes
+    #[kani::proof]
+    fn h4_c_distinct_contents_equal_hash() {
+        let mut a = [0u8; 16];
+        let mut b = [0u8; 16];
+        let mut i = 0;
+        // the shared 8-byte prefix: little-endian bytes of 0xa4093822299f31d0, for which one factor of aHash's
+        // folded multiply is zero (all 24 bytes symbolic: no answer from the solver in 600 s)
+        const PREFIX: [u8; 8] = [0xd0, 0x31, 0x9f, 0x29, 0x22, 0x38, 0x09, 0xa4];
+        while i < 8 {
+            a[i] = PREFIX[i];
+            b[i] = PREFIX[i];
+            i += 1;
+        }
+        let mut differ = false;
+        while i < 16 {
+            a[i] = kani::any();
+            b[i] = kani::any();
+            if a[i] != b[i] { differ = true; }
+            i += 1;
+        }
+        kani::assume(differ);
+        let mut m = TM::new(None);
+        let r0 = m.add_tile(0, a.to_vec());
+        let r1 = m.add_tile(7, b.to_vec());
+        std::mem::forget(r0);
+        std::mem::forget(r1);
+        let g = m.get_tile(0).unwrap().unwrap();
+        let mut same = g.len() == 16;
+        let mut j = 0;
+        while j < 16 {
+            if j < g.len() && g[j] != a[j] { same = false; }
+            j += 1;
+        }
+        assert!(same, "distinct contents with equal content hash: tile 0 now returns tile 7's bytes");
+        kani::cover!(true);
+        std::mem::forget(g);
+        std::mem::forget(m);
+    }
